@@ -64,9 +64,9 @@ theorem C07_and_guard_skips_later_operands (ops : Ops) (bi : List (String × Val
 
 /-- a comprehension part that cannot be re-computed does not make the re-evaluation fail -/
 theorem C07_comprehension_internals_are_best_effort (ops : Ops) (bi : List (String × Val)) (tbl : Tbl)
-    (i : Nat) (targets : List String) (inner : List Expr) (hp : tbl.hasPlaceholder = false) :
-    (visit ops bi tbl (.comp i targets inner)).out = (ops.comp i tbl.values).map some := by
-  simp only [visit, VRes.bind_of_ok (harvest_out _ _ _ _), hp]
+    (i : Nat) (targets : List String) (first : Expr) (inner : List Expr) (hp : tbl.hasPlaceholder = false) :
+    (visit ops bi tbl (.comp i targets first inner)).out = (ops.comp i tbl.values).map some := by
+  simp only [visit, VRes.mk_ok_bind, VRes.bind_of_ok (harvest_out _ _ _ _), hp]
   cases ops.comp i tbl.values <;> simp [Except.map]
 
 end Icontract.Ex
